@@ -76,7 +76,11 @@ func solveOne(o *Obligation, dir string, timeout time.Duration, seed int) *Solve
 	if len(file) > 240 {
 		file = file[:230] + fmt.Sprintf("_%x.smt2", hashString(o.Name))
 	}
-	text := o.smt(int(timeout.Milliseconds()))
+	text := o.Text
+	if text == "" {
+		text = o.smt(int(timeout.Milliseconds()))
+	}
+	o.Text = "" // free memory once written
 	if err := os.WriteFile(file, []byte(text), 0o644); err != nil {
 		return &SolveResult{Status: "failed", Answer: "error", Output: err.Error()}
 	}
@@ -202,6 +206,10 @@ func getModel(file, solver string, timeout time.Duration, seed int) string {
 
 func solveAll(obls []*Obligation, dir string, timeout time.Duration, seed, jobs int) {
 	os.MkdirAll(dir, 0o755)
+	// query texts are generated sequentially (generation touches shared VC state)
+	for _, o := range obls {
+		o.Text = o.smt(int(timeout.Milliseconds()))
+	}
 	var wg sync.WaitGroup
 	sem := make(chan struct{}, jobs)
 	for _, o := range obls {
@@ -229,7 +237,7 @@ func relaxQuery(text string) string {
 	}
 	var out []string
 	for i, l := range lines {
-		if i != lastAssert && strings.HasPrefix(l, "(assert ") && (strings.Contains(l, "(forall ") || strings.Contains(l, "(exists ")) {
+		if i != lastAssert && strings.HasPrefix(l, "(assert ") && (strings.Contains(l, "(forall ") || strings.Contains(l, "(exists ")) && !strings.Contains(l, "(= (ix o j)") {
 			continue
 		}
 		out = append(out, l)
